@@ -79,6 +79,35 @@ def run(ctx):
     return core.finish(ctx)
 
 
+def check_waiting_send(ctx, fx, cfg, subs, n_wait_total, RULE="R12.2"):
+    """the waiting submission over the bounded queue awaits `SinkExt::send` (feed + flush) on a sender clone made for this
+    send (shared with C02: a futures-mpsc sender handle has one parked-waker slot — waiters that share a handle are not all
+    woken when the queue drains or closes, so their sends never resolve)"""
+    # the waiting closure over the bounded sender (wherever it is written)
+    for kind, cf, key in subs:
+        bounded_inst = cf is not None and any(any("futures_channel::mpsc::Sender<" in u for u in caps) for caps in chan.concrete_instances(fx, cf))
+        if kind == "waiting" and cf and bounded_inst:
+            n_wait_total[0] += 1
+            cos = [fx.fn(st["r"]["def"]) for _bi, _si, st in agg_sites(ctx.body(fx, cf), ak="coroutine")]
+            ctx.require(len(cos) == 1, RULE, "waiting-send-shape:%s@%s" % (cf["def"], cfg), "the bounded waiting closure must return one async block that awaits SinkExt::send on its own clone of the Sender (a Sender handle has a single waker slot: waiters sharing one handle lose wake-ups); found %d async blocks" % len(cos), fn=cf["def"], site=cf["loc"])
+            for co in cos:
+                cb = ctx.body(fx, co)
+                enq = [(ebi, et) for ebi, et in cb.normal_calls() if chan.is_enqueue(et)]
+                gen_ = set((fx.fn(cf.get("root", cf["def"])) or {}).get("generics") or [])
+                recv_ty = enq[0][1]["argtys"][0] if enq else ""
+                ok = len(enq) == 1 and enq[0][1]["callee"] == "futures_util::sink::SinkExt::send" and ("futures_channel::mpsc::Sender<" in recv_ty or recv_ty.replace("&mut ", "") in gen_)
+                awaited = False
+                fresh = False
+                if ok:
+                    fsk = sinks(cb, enq[0][1]["dest"][0])
+                    awaited = any(s["k"] == "call" and (s["t"].get("callee") or "").endswith("Future::poll") for s in fsk)
+                    for o in cb.origins(enq[0][1]["args"][0], through_calls=False):
+                        if o.kind == "call" and (cb.call_at(o).get("callee") or "").endswith("Clone::clone"):
+                            fresh = True
+                ctx.require(ok and awaited and fresh, RULE, "waiting-send-flushes:%s@%s" % (cf["def"], cfg), "the bounded waiting path must await SinkExt::send (feed + flush) on a fresh clone of the bounded Sender: %s awaited=%s fresh_clone=%s" % ([et["callee"] for _x, et in enq], awaited, fresh), fn=co["def"], site=co["loc"], detail={"fresh_clone": fresh})
+
+
+
 def check_cfg(ctx, fx, cfg):
     # R12.5 (shared with C01) the receiving side adds nothing to the capacity: a loop takes a payload out of the mailbox
     # at one site and dispatches it before it takes the next — a look-ahead slot un-parks one more waiting sender while the
@@ -114,28 +143,7 @@ def check_cfg(ctx, fx, cfg):
         if t["callee"].endswith("::channel"):
             rs = roots(b, t["args"][0])
             ctx.require(all(r.kind == "arg" and not r.proj for r in rs) and rs, "R12.2", "buffer-unmodified:%s@%s" % (fn_, cfg), "mpsc::channel must be created with exactly the capacity given: roots %s" % sorted(map(str, rs)), fn=fn_, site=t["l"])
-            # the waiting closure over the bounded sender (wherever it is written)
-            for kind, cf, key in subs:
-                bounded_inst = cf is not None and any(any("futures_channel::mpsc::Sender<" in u for u in caps) for caps in chan.concrete_instances(fx, cf))
-                if kind == "waiting" and cf and bounded_inst:
-                    n_wait_total[0] += 1
-                    cos = [fx.fn(st["r"]["def"]) for _bi, _si, st in agg_sites(ctx.body(fx, cf), ak="coroutine")]
-                    ctx.require(len(cos) == 1, "R12.2", "waiting-send-shape:%s@%s" % (cf["def"], cfg), "the bounded waiting closure must return one async block that awaits SinkExt::send on its own clone of the Sender (a Sender handle has a single waker slot: waiters sharing one handle lose wake-ups); found %d async blocks" % len(cos), fn=cf["def"], site=cf["loc"])
-                    for co in cos:
-                        cb = ctx.body(fx, co)
-                        enq = [(ebi, et) for ebi, et in cb.normal_calls() if chan.is_enqueue(et)]
-                        gen_ = set((fx.fn(cf.get("root", cf["def"])) or {}).get("generics") or [])
-                        recv_ty = enq[0][1]["argtys"][0] if enq else ""
-                        ok = len(enq) == 1 and enq[0][1]["callee"] == "futures_util::sink::SinkExt::send" and ("futures_channel::mpsc::Sender<" in recv_ty or recv_ty.replace("&mut ", "") in gen_)
-                        awaited = False
-                        fresh = False
-                        if ok:
-                            fsk = sinks(cb, enq[0][1]["dest"][0])
-                            awaited = any(s["k"] == "call" and (s["t"].get("callee") or "").endswith("Future::poll") for s in fsk)
-                            for o in cb.origins(enq[0][1]["args"][0], through_calls=False):
-                                if o.kind == "call" and (cb.call_at(o).get("callee") or "").endswith("Clone::clone"):
-                                    fresh = True
-                        ctx.require(ok and awaited and fresh, "R12.2", "waiting-send-flushes:%s@%s" % (cf["def"], cfg), "the bounded waiting path must await SinkExt::send (feed + flush) on a fresh clone of the bounded Sender: %s awaited=%s fresh_clone=%s" % ([et["callee"] for _x, et in enq], awaited, fresh), fn=co["def"], site=co["loc"], detail={"fresh_clone": fresh})
+            check_waiting_send(ctx, fx, cfg, subs, n_wait_total)
     ctx.floor("R12.2", "bounded waiting closures (%s)" % cfg, n_wait_total[0], 1)
     CAP_ENTRIES = {"actor::builder::BaseActorBuilder::<A, P>::bounded": 1, "actor::builder::BaseActorBuilder::<A, P>::bounded_on_stream": 1, "environment::Environment::<A>::bounded": 0}
     for caller, idx in (("actor::builder::BaseActorBuilder::<A, P>::bounded", 1), ("actor::builder::BaseActorBuilder::<A, P>::bounded_on_stream", 1), ("environment::Environment::<A>::bounded", 0)):
